@@ -5,12 +5,14 @@ import SifVerif.Model.Image
 import SifVerif.Model.Extra
 namespace Sif
 
-/-- a selector that cannot raise an error: not a zero ID / zero group selector -/
+/-- a built-in selector that cannot raise an error: not a zero ID / zero group selector (a
+    caller's own function is not known to be quiet: see `Sel.errOn`) -/
 def Sel.noErr : Sel → Bool
   | .id i => i != 0
   | .groupID g => g != 0
   | .linkedID i => i != 0
   | .linkedGroupID g => g != 0
+  | .pred _ => false
   | _ => true
 
 /-- the error a selector raises whenever it is evaluated -/
@@ -32,10 +34,43 @@ def Sel.holds (ph : Bytes → Option Bytes) (s : Sel) (d : RawDesc) : Bool :=
   | .linkedGroupID g => d.linkIsGroup && d.linkedID == g
   | .partType pt => d.isPartitionOfType pt
   | .ociDigest t => (match ociText ph d with | some t' => t' == t | none => false)
+  | .pred f => (match f (erase d) with | .ok b => b | .error _ => false)
+
+/-- the error (if any) the selector answers with on descriptor `d` -/
+def Sel.errOn (ph : Bytes → Option Bytes) (s : Sel) (d : RawDesc) : Option Err :=
+  match s.eval ph d with
+  | .error e => some e
+  | .ok _ => none
+
+/-- the first error the selector answers with on the in-use descriptors, in table order -/
+def Sel.firstErr (ph : Bytes → Option Bytes) (s : Sel) (ds : List RawDesc) : Option Err :=
+  ds.findSome? (fun d => if d.used then s.errOn ph d else none)
+
+theorem Sel.eval_quiet (ph : Bytes → Option Bytes) (s : Sel) (d : RawDesc)
+    (h : s.errOn ph d = none) : s.eval ph d = .ok (s.holds ph d) := by
+  unfold Sel.errOn at h
+  cases s with
+  | pred f =>
+    simp only [Sel.eval, Sel.holds] at h ⊢
+    cases hf : f (erase d) <;> simp_all
+  | id i => by_cases hi : i = 0 <;> simp_all [Sel.eval, Sel.holds]
+  | linkedID i => by_cases hi : i = 0 <;> simp_all [Sel.eval, Sel.holds]
+  | groupID i => by_cases hi : i = 0 <;> simp_all [Sel.eval, Sel.holds]
+  | linkedGroupID i => by_cases hi : i = 0 <;> simp_all [Sel.eval, Sel.holds]
+  | _ => simp [Sel.eval, Sel.holds] <;> rfl
+
+theorem Sel.eval_loud (ph : Bytes → Option Bytes) (s : Sel) (d : RawDesc) (e : Err)
+    (h : s.errOn ph d = some e) : s.eval ph d = .error e := by
+  unfold Sel.errOn at h
+  cases hv : s.eval ph d <;> simp_all
 
 theorem Sel.eval_noErr (ph : Bytes → Option Bytes) (s : Sel) (d : RawDesc) (h : s.noErr = true) :
     s.eval ph d = .ok (s.holds ph d) := by
   cases s <;> simp_all [Sel.eval, Sel.holds, Sel.noErr] <;> rfl
+
+theorem Sel.errOn_noErr (ph : Bytes → Option Bytes) (s : Sel) (d : RawDesc) (h : s.noErr = true) :
+    s.errOn ph d = none := by
+  simp [Sel.errOn, Sel.eval_noErr ph s d h]
 
 theorem Sel.eval_err (ph : Bytes → Option Bytes) (s : Sel) (d : RawDesc) (e : Err)
     (h : s.errOf = some e) : s.eval ph d = .error e := by
@@ -45,6 +80,33 @@ theorem Sel.eval_err (ph : Bytes → Option Bytes) (s : Sel) (d : RawDesc) (e : 
   | groupID i => cases i <;> simp_all [Sel.eval, Sel.errOf]
   | linkedGroupID i => cases i <;> simp_all [Sel.eval, Sel.errOf]
   | _ => simp_all [Sel.errOf]
+
+theorem Sel.errOn_errOf (ph : Bytes → Option Bytes) (s : Sel) (d : RawDesc) (e : Err)
+    (h : s.errOf = some e) : s.errOn ph d = some e := by
+  simp [Sel.errOn, Sel.eval_err ph s d e h]
+
+theorem Sel.firstErr_noErr (ph : Bytes → Option Bytes) (s : Sel) (ds : List RawDesc)
+    (h : s.noErr = true) : s.firstErr ph ds = none := by
+  induction ds with
+  | nil => rfl
+  | cons d ds ih =>
+    simp only [Sel.firstErr, List.findSome?_cons] at ih ⊢
+    cases hu : d.used <;> simp [Sel.errOn_noErr ph s d h, ih]
+
+theorem Sel.firstErr_errOf (ph : Bytes → Option Bytes) (s : Sel) (ds : List RawDesc) (e : Err)
+    (h : s.errOf = some e) : s.firstErr ph ds = if ds.any (·.used) then some e else none := by
+  induction ds with
+  | nil => rfl
+  | cons d ds ih =>
+    simp only [Sel.firstErr, List.findSome?_cons] at ih ⊢
+    cases hu : d.used <;> simp [Sel.errOn_errOf ph s d e h, ih, hu]
+
+/-- the part of the table before the first error is quiet -/
+theorem Sel.firstErr_none (ph : Bytes → Option Bytes) (s : Sel) (ds : List RawDesc)
+    (h : s.firstErr ph ds = none) : ∀ d ∈ ds, d.used = true → s.errOn ph d = none := by
+  intro d hd hu
+  simp only [Sel.firstErr, List.findSome?_eq_none_iff] at h
+  simpa [hu] using h d hd
 
 theorem multiSel_noErr (ph : Bytes → Option Bytes) (sels : List Sel) (d : RawDesc)
     (h : ∀ s ∈ sels, s.noErr = true) :
